@@ -121,7 +121,15 @@ pub const U16_ALPHABET: [u16; 5] = [0, 1, 0x7FFF, 0x8000, 0xFFFF];
 /// (values different from the original), and every 2-aligned position × U16_ALPHABET where *both* bytes
 /// change (the others are already one-byte deviations). Deterministic order: by offset, bytes first.
 pub fn table_deviations(table: &str, tdata: &[u8], max_bytes: usize) -> Vec<Dev> {
+    table_deviations_ext(table, tdata, max_bytes, false)
+}
+
+/// `rich` adds, at every 2-aligned position, the length- and position-relative u16 values of X3
+/// {len−2, len−1, len, len+1, pos, pos+1, pos+2} (len = table length) and the off-by-one neighbours
+/// {orig−1, orig+1} of the value already there — the values that put a count or offset exactly on a bound.
+pub fn table_deviations_ext(table: &str, tdata: &[u8], max_bytes: usize, rich: bool) -> Vec<Dev> {
     let n = tdata.len().min(max_bytes);
+    let len = tdata.len();
     let mut out = vec![];
     for o in 0..n {
         for v in BYTE_ALPHABET {
@@ -142,6 +150,39 @@ pub fn table_deviations(table: &str, tdata: &[u8], max_bytes: usize) -> Vec<Dev>
                         off: o as u32,
                         bytes: b.to_vec(),
                     });
+                }
+            }
+            if rich {
+                let orig = u16::from_be_bytes([tdata[o], tdata[o + 1]]);
+                let mut extra: Vec<u16> = vec![];
+                for v in [
+                    len as i64 - 2,
+                    len as i64 - 1,
+                    len as i64,
+                    len as i64 + 1,
+                    o as i64,
+                    o as i64 + 1,
+                    o as i64 + 2,
+                    orig as i64 - 1,
+                    orig as i64 + 1,
+                ] {
+                    if (0..=0xFFFF).contains(&v) {
+                        extra.push(v as u16);
+                    }
+                }
+                extra.sort();
+                extra.dedup();
+                for w in extra {
+                    let b = w.to_be_bytes();
+                    let one_byte_dev = (b[0] == tdata[o] && BYTE_ALPHABET.contains(&b[1])) || (b[1] == tdata[o + 1] && BYTE_ALPHABET.contains(&b[0]));
+                    let both_in_u16 = U16_ALPHABET.contains(&w) && b[0] != tdata[o] && b[1] != tdata[o + 1];
+                    if w != orig && !one_byte_dev && !both_in_u16 {
+                        out.push(Dev {
+                            table: table.to_string(),
+                            off: o as u32,
+                            bytes: b.to_vec(),
+                        });
+                    }
                 }
             }
         }
